@@ -76,6 +76,11 @@ FIXED = [
     ("hendrix", dict(max_useful_life=2, max_order_quantity_a=3, max_order_quantity_b=3)),
     ("hendrix", dict(max_useful_life=1, max_order_quantity_a=10, max_order_quantity_b=10)),
     ("mirjalili", dict(max_useful_life=3, max_order_quantity=3, max_demand=5)),
+    # demand whose whole gamma mass lies above max_demand (every CDF difference is 0 in float32; all mass is lumped on max_demand)
+    ("de_moor", dict(max_useful_life=1, lead_time=1, max_order_quantity=2, max_demand=5, demand_gamma_mean=1000.0, demand_gamma_cov=0.1)),
+    ("de_moor", dict(max_useful_life=2, lead_time=1, max_order_quantity=2, max_demand=1, demand_gamma_mean=50.0, demand_gamma_cov=0.1)),
+    # ... and far below 1 (all mass on demand 0)
+    ("de_moor", dict(max_useful_life=1, lead_time=1, max_order_quantity=2, max_demand=4, demand_gamma_mean=0.001, demand_gamma_cov=0.2)),
     # order quantities beyond 127 (a space stored in a narrower integer type would wrap)
     ("de_moor", dict(max_useful_life=1, lead_time=1, max_order_quantity=140, max_demand=3)),
     ("mirjalili", dict(max_useful_life=1, max_order_quantity=130, max_demand=2,
